@@ -139,9 +139,45 @@ impl<'a> Scan<'a> {
                     one.chunks_mut(wbits / 8).for_each(|w| w[0] = 1);
                     (a, one)
                 }
+                // carry chains: a + (-1), a + (-k), a + (-a), and a carry arriving at an all-ones
+                // limb of the other operand (per word; limbs of 16 / 32 / 64 bits by turns)
+                4..=9 => {
+                    let wb = wbits / 8;
+                    let mut a = r.bytes(nbytes);
+                    let mut b = vec![0u8; nbytes];
+                    for (x, y) in a.chunks_mut(wb).zip(b.chunks_mut(wb)) {
+                        let mut xv = 0u128;
+                        for (k, v) in x.iter().enumerate() {
+                            xv |= (*v as u128) << (8 * k);
+                        }
+                        let m = if wb == 16 { u128::MAX } else { (1u128 << (8 * wb)) - 1 };
+                        let yv: u128 = match i {
+                            4 => m,                                               // x - 1
+                            5 => (r.below(1000) as u128 + 1).wrapping_neg() & m,  // x - k
+                            6 => xv.wrapping_neg() & m,                           // sums to 0, carry through every bit
+                            7 => (!xv).wrapping_add(1 + r.below(3) as u128) & m,
+                            _ => {
+                                // low limb of x all ones, y = 1 plus an all-ones limb right above it
+                                let lb = [16u32, 32, 64][(i + salt as usize) % 3].min(4 * wb as u32);
+                                let low = (1u128 << lb) - 1;
+                                xv = (xv & !low) | low;
+                                let above = if 2 * lb >= 8 * wb as u32 { m & !low } else { ((1u128 << lb) - 1) << lb };
+                                if i == 8 { 1 | above } else { (r.below(1 << 15) as u128 | 1) | above }
+                            }
+                        };
+                        for k in 0..wb {
+                            x[k] = (xv >> (8 * k)) as u8;
+                            y[k] = (yv >> (8 * k)) as u8;
+                        }
+                    }
+                    if salt & 1 == 1 {
+                        core::mem::swap(&mut a, &mut b); // the operation must commute
+                    }
+                    (a, b)
+                }
                 _ => {
-                    let a = operand(r, i, nbytes, salt);
-                    let b = if i % 2 == 0 { operand(r, i + 1, nbytes, salt ^ 0x55) } else { r.bytes(nbytes) };
+                    let a = operand(r, i - 6, nbytes, salt);
+                    let b = if i % 2 == 0 { operand(r, i - 5, nbytes, salt ^ 0x55) } else { r.bytes(nbytes) };
                     (a, b)
                 }
             };
@@ -612,6 +648,29 @@ fn storage128_from_u64(_w: &[u64; 2], a: &[u8]) -> vec128_storage {
     s128(a)
 }
 
+/// Operations that only the portable backend exposes on the 128-bit-word types (its `u128x1`
+/// family also implements `ArithOps` and `BSwap`): "operations a backend exposes" (C12).
+#[cfg(any(feature = "portable", miri))]
+fn generic_extras(sc: &mut Scan) {
+    use ppv_lite86::generic::GenericMachine as G;
+    let m = unsafe { G::instance() };
+    {
+        let from = |b: &[u8]| -> <G as Machine>::u128x1 { m.unpack(s128(b)) };
+        let to = |v: <G as Machine>::u128x1| -> Vec<u8> { b128(v.into()) };
+        arith!(sc, "u128x1", 16, 128, from, to);
+    }
+    {
+        let from = |b: &[u8]| -> <G as Machine>::u128x2 { m.unpack(s256(b)) };
+        let to = |v: <G as Machine>::u128x2| -> Vec<u8> { b256(v.into()) };
+        arith!(sc, "u128x2", 32, 128, from, to);
+    }
+    {
+        let from = |b: &[u8]| -> <G as Machine>::u128x4 { m.unpack(s512(b)) };
+        let to = |v: <G as Machine>::u128x4| -> Vec<u8> { b512(v.into()) };
+        arith!(sc, "u128x4", 64, 128, from, to);
+    }
+}
+
 struct Runner<'a, 'b> {
     sc: &'a mut Scan<'b>,
 }
@@ -620,6 +679,66 @@ impl<'a, 'b> MachFn for Runner<'a, 'b> {
     fn call<M: Machine>(&mut self, name: &'static str, m: M) {
         self.sc.backend = name;
         scan(m, self.sc);
+        #[cfg(any(feature = "portable", miri))]
+        generic_extras(self.sc);
+    }
+}
+
+/// The direct vector-to-vector view conversions of the x86-64 types (`u128xN` into the 32- and
+/// 64-bit word views): the bits must not move, i.e. the storage of the result equals the storage
+/// of the source (little-endian word packing).
+#[cfg(all(not(feature = "portable"), not(miri)))]
+struct Views<'a, 'b> {
+    sc: &'a mut Scan<'b>,
+}
+#[cfg(all(not(feature = "portable"), not(miri)))]
+impl<'a, 'b> machines::ViewFn for Views<'a, 'b> {
+    #[inline(always)]
+    fn call<M: Machine>(&mut self, name: &'static str, m: M)
+    where
+        M::u128x1: Into<M::u32x4> + Into<M::u64x2>,
+        M::u128x2: Into<M::u32x4x2> + Into<M::u64x2x2>,
+        M::u128x4: Into<M::u32x4x4> + Into<M::u64x2x4>,
+    {
+        self.sc.backend = name;
+        let n = self.sc.n;
+        let sc = &mut *self.sc;
+        sc.check("C13", "u128x1", "into-u32x4", n, &|i, r, salt| {
+            let a = operand(r, i, 16, salt);
+            let v: M::u128x1 = m.unpack(s128(&a));
+            let w: M::u32x4 = v.into();
+            neq("u128x1 -> u32x4", &b128(w.into()), &a)
+        });
+        sc.check("C13", "u128x1", "into-u64x2", n, &|i, r, salt| {
+            let a = operand(r, i, 16, salt);
+            let v: M::u128x1 = m.unpack(s128(&a));
+            let w: M::u64x2 = v.into();
+            neq("u128x1 -> u64x2", &b128(w.into()), &a)
+        });
+        sc.check("C13", "u128x2", "into-u32x4x2", n, &|i, r, salt| {
+            let a = operand(r, i, 32, salt);
+            let v: M::u128x2 = m.unpack(s256(&a));
+            let w: M::u32x4x2 = v.into();
+            neq("u128x2 -> u32x4x2", &b256(w.into()), &a)
+        });
+        sc.check("C13", "u128x2", "into-u64x2x2", n, &|i, r, salt| {
+            let a = operand(r, i, 32, salt);
+            let v: M::u128x2 = m.unpack(s256(&a));
+            let w: M::u64x2x2 = v.into();
+            neq("u128x2 -> u64x2x2", &b256(w.into()), &a)
+        });
+        sc.check("C13", "u128x4", "into-u32x4x4", n, &|i, r, salt| {
+            let a = operand(r, i, 64, salt);
+            let v: M::u128x4 = m.unpack(s512(&a));
+            let w: M::u32x4x4 = v.into();
+            neq("u128x4 -> u32x4x4", &b512(w.into()), &a)
+        });
+        sc.check("C13", "u128x4", "into-u64x2x4", n, &|i, r, salt| {
+            let a = operand(r, i, 64, salt);
+            let v: M::u128x4 = m.unpack(s512(&a));
+            let w: M::u64x2x4 = v.into();
+            neq("u128x4 -> u64x2x4", &b512(w.into()), &a)
+        });
     }
 }
 
@@ -635,6 +754,8 @@ pub fn run(cx: &mut Ctx) {
         }
         let mut sc = Scan { cx, seed, n, only: None, backend: "", triples: 0 };
         machines::run(name, &mut Runner { sc: &mut sc });
+        #[cfg(all(not(feature = "portable"), not(miri)))]
+        machines::run_views(name, &mut Views { sc: &mut sc });
         total += sc.triples;
     }
     cx.log.event("triples_exercised", total);
@@ -650,5 +771,10 @@ pub fn replay(cx: &mut Ctx, desc: &str) {
         backend: "",
         triples: 0,
     };
+    #[cfg(all(not(feature = "portable"), not(miri)))]
+    if d.str("op").starts_with("into-") {
+        machines::run_views(d.str("m"), &mut Views { sc: &mut sc });
+        return;
+    }
     machines::run(d.str("m"), &mut Runner { sc: &mut sc });
 }
